@@ -387,12 +387,19 @@ func runC12(c *Ctx) {
 	c.Conc = true // stateless calls are also replayed from several goroutines at once
 	r := c.Rng
 	atoms := [][]byte{nil, randBytes(r, 32), randBytes(r, 32), randBytes(r, 32)}
+	nExtract := 0
 	extract := func(ntx uint32, hs [][]byte, flags []byte) Event {
 		hl := [][]int{}
 		for _, h := range hs {
 			hl = append(hl, ints(h))
 		}
-		return c.Call(Event{"op": "ExtractMsg", "ntx": w32(ntx), "hashes": hl, "flags": ints(flags)})
+		// every third message is asked twice (the second answer is judged as well: what was refused stays refused)
+		nExtract++
+		op := "ExtractMsg"
+		if nExtract%3 == 0 {
+			op = "ExtractAgain"
+		}
+		return c.Call(Event{"op": op, "ntx": w32(ntx), "hashes": hl, "flags": ints(flags)})
 	}
 	// TLC-generated equivalence classes of messages (lazily chosen), tail filled with 0s and 1s
 	for _, cs := range readCases(c.Cases) {
